@@ -20,9 +20,9 @@ def main(tier: str, seed: int) -> int:
     asmcheck.mc_family(rep, 'disasm2', 'dis')
     asmcheck.mc_family(rep, 'disasm4', 'dis')
     asmcheck.mc_family(rep, 'operands', 'dis', seed)
+    asmcheck.mc_family(rep, 'struct', 'dis', seed)
     if not quick:
         asmcheck.mc_family(rep, 'disasm3', 'dis')
-        asmcheck.mc_family(rep, 'struct', 'dis', seed)
     rep.exhaustive = True
     corpus = asmcheck.builder_corpus()
     rep.extra['corpus_scripts'] = len(corpus)
